@@ -366,21 +366,23 @@ Qed.
 Definition no_ops : ops := mkOps [] [] [] [] [] [] [] [] [] [] [] [] [] [] [] [].
 Definition no_env : env := mkEnv [] [].
 
-(* nodes 0 and 1 each establish a session; node 1 takes over session 1 (Modification with Node ID 1);
-   node 1 re-associates: session 1 is removed, but session 2 - established under node id 1 - survives,
-   and node id 0 has lost its association. *)
+(* nodes 0 and 1 each establish a session; node 1 takes over session 1 (Modification with Node ID 1: node 1 has its own
+   association, so the session MOVES to it - fix "takeover by a node with its own association moves the session");
+   node 1 re-associates: both of its sessions are removed, node 0 keeps its association and owns nothing.
+   (Before the fix session 2 survived and node id 0 lost its association.) *)
 Definition takeover_history : list event :=
   [EvRecv 0 1 (MAssocSetup (IeVal 0) []) no_env; EvRecv 1 1 (MAssocSetup (IeVal 1) []) no_env;
    EvRecv 0 2 (MEst (IeVal 0) (IeVal 10) no_ops) no_env; EvRecv 1 2 (MEst (IeVal 1) (IeVal 20) no_ops) no_env;
    EvRecv 1 3 (MMod 1 (IeVal 1) no_ops) no_env;
    EvRecv 1 4 (MAssocSetup (IeVal 1) []) no_env].
 
-Example takeover_collision_refuted :
+Example takeover_collision_exact :
   match run (init 0 1) takeover_history with
-  | Ok (w, _) => map (option_map s_rid) (w_slots w) = [None; Some 20] /\ alookup 0 (w_rnodes w) = None
+  | Ok (w, _) => map (option_map s_rid) (w_slots w) = [None; None] /\ alookup 0 (w_rnodes w) <> None /\
+                 map n_sess (w_heap w) = [[]; []; []]
   | Fault _ => False
   end.
-Proof. vm_compute. split; reflexivity. Qed.
+Proof. vm_compute. split; [reflexivity | split; [discriminate | reflexivity]]. Qed.
 
 Theorem est_rejected_no_trace w peer seq nid fseid o e :
   (nid = IeAbsent \/ nid = IeBad \/ (exists id, nid = IeVal id /\ alookup id (w_rnodes w) = None) \/
@@ -487,6 +489,35 @@ Proof.
   apply put_slot_rx in Ep. intros H. inversion H; subst. rewrite Ep. cbn. exact En.
 Qed.
 
+Lemma takeover_rx w s id : w_rx (fst (takeover w s id)) = w_rx w.
+Proof.
+  unfold takeover. destruct (alookup id (w_rnodes w)) as [r|]; [destruct (Nat.eqb r (s_node s))|]; cbn [fst];
+    try apply update_node_id_rx. reflexivity.
+Qed.
+
+(* takeover by a node id that already has an association of its own: that association is NOT displaced; exactly this
+   session changes hands, every other session (and all rules) stay as they are *)
+Theorem takeover_collision_spec w seid s newid ref' :
+  WInv w -> live w seid s -> alookup newid (w_rnodes w) = Some ref' -> ref' <> s_node s ->
+  WInv (fst (takeover w s newid)) /\ live (fst (takeover w s newid)) seid (snd (takeover w s newid)) /\
+  s_node (snd (takeover w s newid)) = ref' /\ w_rnodes (fst (takeover w s newid)) = w_rnodes w /\
+  (forall l x, l <> seid -> (live (fst (takeover w s newid)) l x <-> live w l x)) /\
+  w_dp (fst (takeover w s newid)) = w_dp w.
+Proof.
+  intros HI HL Er Hne.
+  destruct (takeover w s newid) as [w1 s1] eqn:Et.
+  destruct (takeover_inv _ _ _ _ _ _ HI HL Et) as [A [B [C _]]]. cbn [fst snd].
+  unfold takeover in Et. rewrite Er in Et. destruct (Nat.eqb_spec ref' (s_node s)) as [E|_]; [contradiction|].
+  unfold move_sess in Et. inversion Et; subst. clear Et.
+  split; [exact A|]. split; [exact B|]. split; [reflexivity|]. split; [reflexivity|]. split; [|reflexivity].
+  intros l x Hl. pose proof (live_lid w seid s HI HL) as Hlid. rewrite Hlid.
+  unfold live. cbn [set_heap set_dp set_slots_free w_slots].
+  destruct HL as [Hp _].
+  split; intros [H1 H2]; (split; [exact H1|]).
+  - rewrite nth_error_set_nth_other in H2 by lia. exact H2.
+  - rewrite nth_error_set_nth_other by lia. exact H2.
+Qed.
+
 Lemma handle_mod_abort_rx w seid nid o e w' out : handle_mod_abort w seid nid o e = Ok (w', out) -> w_rx w' = w_rx w.
 Proof.
   unfold handle_mod_abort. destruct (lookup (w_slots w) seid) as [[s|]|f]; [| |discriminate].
@@ -495,9 +526,10 @@ Proof.
   - destruct (run_categories e o mod_order _) as [[c rs]|]; [|intros H; inversion H; subst; reflexivity].
     match goal with |- context [put_slot ?wx ?sx] => destruct (put_slot wx sx) as [wb|f] eqn:Ep end; [|discriminate].
     apply put_slot_rx in Ep. intros H. inversion H; subst. rewrite Ep. reflexivity.
-  - destruct (run_categories e o mod_order _) as [[c rs]|]; [|intros H; inversion H; subst; reflexivity].
+  - pose proof (takeover_rx w s id) as Ht. destruct (takeover w s id) as [w1 s1]. cbn [fst] in Ht.
+    destruct (run_categories e o mod_order _) as [[c rs]|]; [|intros H; inversion H; subst; reflexivity].
     match goal with |- context [put_slot ?wx ?sx] => destruct (put_slot wx sx) as [wb|f] eqn:Ep end; [|discriminate].
-    apply put_slot_rx in Ep. intros H. inversion H; subst. rewrite Ep. cbn. apply update_node_id_rx.
+    apply put_slot_rx in Ep. intros H. inversion H; subst. rewrite Ep. cbn. exact Ht.
 Qed.
 
 (* only driver calls come out of an aborted handler *)
@@ -523,7 +555,8 @@ Proof.
     apply run_categories_good in Ec. cbn [fst] in Ec. destruct Ec as [[Fl Fr Fn Fo [o' [Eo Fo']]] HS]. cbn [c_s c_dp c_out] in *.
     match goal with |- context [put_slot ?wx ?sx] => destruct (put_slot wx sx) as [wb|f] end; [|discriminate].
     intros H. inversion H; subst. rewrite Eo. cbn. eapply own_drv_is_drv. exact Fo'.
-  - destruct (run_categories e o mod_order _) as [[c rs]|] eqn:Ec; [|intros H; inversion H; subst; constructor].
+  - destruct (takeover w s id) as [w1 s1].
+    destruct (run_categories e o mod_order _) as [[c rs]|] eqn:Ec; [|intros H; inversion H; subst; constructor].
     apply run_categories_good in Ec. cbn [fst] in Ec. destruct Ec as [[Fl Fr Fn Fo [o' [Eo Fo']]] HS]. cbn [c_s c_dp c_out] in *.
     match goal with |- context [put_slot ?wx ?sx] => destruct (put_slot wx sx) as [wb|f] end; [|discriminate].
     intros H. inversion H; subst. rewrite Eo. cbn. eapply own_drv_is_drv. exact Fo'.
